@@ -1892,6 +1892,9 @@ coap_send_internal(coap_session_t *session, coap_pdu_t *pdu) {
   coap_queue_t *node = coap_new_node();
   if (!node) {
     coap_log_debug("coap_wait_ack: insufficient memory\n");
+    /* coap_send_pdu() has counted this CON as active: it will never be acknowledged */
+    if (session->con_active)
+      session->con_active--;
     goto error;
   }
 
